@@ -52,6 +52,9 @@ static Res real_parse(parser& p, const Decl& d, const V& args)
         r.pos = a.positionals();
         // C12: index -k addresses the k-th positional from the end
         for (int k = 1; k <= (int)r.pos.size(); ++k) if (a.get(-k) != r.pos[r.pos.size() - k] || a[k - 1] != r.pos[k - 1]) { r.ok = false; r.exc = 9; }
+        if (!r.pos.empty())
+            for (int k : { (int)r.pos.size(), (int)r.pos.size() + 1, -(int)r.pos.size() - 1, -(int)r.pos.size() - 2 })   // anything else is out of range, never another element
+            { bool threw = false; try { (void)a.get(k); } catch (std::out_of_range&) { threw = true; } if (!threw) { r.ok = false; r.exc = 8; } }
     }
     catch (parsing_error&) { r.exc = 1; } catch (parser_error&) { r.exc = 2; } catch (std::exception&) { r.exc = 3; }
     return r;
@@ -214,6 +217,8 @@ static int sweep_format_padded()
                 bool forced = false; { std::stringstream t(line); S w; while (t >> w) if (w[0] != '#' && (int)w.size() + 1 > W - left_pad) forced = true; }
                 if ((int)line.size() > W && !forced && line.find('#') == S::npos) ok = false;
                 if ((int)line.size() > W && !forced && line.find('#') != S::npos && prefix <= left_pad) ok = false;
+                // a stream that already stands beyond left_pad: the first word that fits a line of its own goes to a new line
+                if (line.find('#') != S::npos && prefix > left_pad && !forced && line != S(prefix, '#')) ok = false;
             }
             if (!ok && ++dev <= 5) std::printf("DEVIATION format_padded(left_pad=%d, max_width=%d) on a stream holding %d characters, text '%s':\n%s\n", left_pad, W, prefix, text.c_str(), out.c_str());
         }
@@ -304,6 +309,15 @@ static int sweep_consistency()
             ++n;
             if (!ok && ++dev <= 5) std::printf("DEVIATION consistency:%s\n", trace.c_str());
         }
+    }
+    for (const char* bad : { "", "xy", "abc" })
+    {   // a short name is exactly one character
+        parser p; int exc = 0;
+        try { p.toggle("t").short_name(bad); } catch (parser_error&) { exc = 2; } catch (std::exception&) { exc = 3; }
+        ++n; if (exc != 2 && ++dev <= 5) std::printf("DEVIATION consistency: toggle(t).short_name(\"%s\") was accepted\n", bad);
+        parser q; exc = 0;
+        try { q.option("o").short_name(bad); } catch (parser_error&) { exc = 2; } catch (std::exception&) { exc = 3; }
+        ++n; if (exc != 2 && ++dev <= 5) std::printf("DEVIATION consistency: option(o).short_name(\"%s\") was accepted\n", bad);
     }
     std::printf("consistency: %ld sequences, %d deviations\n", n, dev);
     return dev ? 1 : 0;
